@@ -25,16 +25,15 @@ TRUSTED = [
     "Equiv/Model.v tied by this correspondence",
     "CPython iterates a set of ints in 0..7 in ascending order (probed on every run by extra_checks); the model's "
     "runnable instance iterates sets in ascending order; the theorems hold for every iteration order",
-    "completeness of connect_cycles (C06_complete) is NOT a Coq theorem: it is checked on every generated history "
-    "against the proved reference Ref.mutual_ref (theorem C06_reference_scc_correct) and against an independent "
-    "Floyd-Warshall oracle",
 ]
 ASSUMPTIONS = [
     "theorems are stated for runs of the model that do not exhaust the explicit loop fuel (exec ... = Some ...); "
     "the harness treats fuel exhaustion as an error and never observed it",
     "labels are Python ints (any sign/size)",
 ]
-TECHNIQUE = "Coq proof (invariants by induction over operation histories) + extracted-model/implementation correspondence + proved reference SCC"
+TECHNIQUE = ("Coq proof (invariants by induction over operation histories; depth-first-search invariant over the live "
+             "union-find for the completeness of connect_cycles) + extracted-model/implementation correspondence + "
+             "proved reference SCC")
 LEVEL_TEXT = (
     "Theorems C06_* (coq/theories/Props/C06.v) prove, for every history of add_two_way_edge / add_one_way_edge / "
     "set_verified / connect_cycles / queries on a fresh database, every label set and every set-iteration order: "
@@ -44,11 +43,20 @@ LEVEL_TEXT = (
     "partition exactly by the requested merge, connect_cycles only merges), is_verified(a) <=> some label of a's "
     "class was passed to set_verified (before or after the merges), find_path answers exactly when the labels are "
     "equivalent and its answer starts at the first, ends at the second label and follows recorded edges only. "
-    "Completeness right after connect_cycles (mutually reachable => equivalent) is NOT proved: only "
-    "C06_complete_partial (labels joined by two-way edges are always equivalent) and "
-    "C06_complete_partial_edges_kept (every recorded edge stays inside a class or represented in the one-way "
-    "table); the full statement is checked on every generated history against a reference transitive closure "
-    "proved correct in Coq (C06_reference_scc_correct) and against an independent Floyd-Warshall oracle. "
+    "Completeness IS proved (C06_complete, C06_complete_connect_step, C06_complete_equivalent): in the state "
+    "immediately after connect_cycles, labels that are mutually reachable along recorded edges are in the same "
+    "class and `equivalent` answers True; together with soundness, C06_classes_are_sccs: right after "
+    "connect_cycles `equivalent(a,b)` <=> a and b are mutually reachable, i.e. the classes are exactly the "
+    "strongly connected components of the recorded graph, and C06_classes_are_sccs_after_queries: the same after "
+    "any number of queries (equivalent / is_verified / db[x] / find_path) following connect_cycles. The proof "
+    "(Equiv/CompleteUF.v, CompleteDFS.v, Complete.v) is a depth-first-search invariant of the explicit stack of "
+    "paths over the union-find that is merged during the traversal, for every set-iteration order (even one that "
+    "repeats elements). The earlier partial statements C06_complete_partial (labels joined by two-way edges are "
+    "always equivalent) and C06_complete_partial_edges_kept (every recorded edge stays inside a class or "
+    "represented in the one-way table; used by the completeness proof) are kept. The correspondence still checks "
+    "`equivalent` after every connect_cycles against a reference transitive closure proved correct in Coq "
+    "(C06_reference_scc_correct) and against an independent Floyd-Warshall oracle: this now tests the MODEL'S "
+    "faithfulness to equiv_db.py, not an unproved property of the model. "
     "The hand-written model is tied to equiv_db.py by running both on generated histories and comparing every "
     "answer (and, for labels 0..7, roots, weights, parent pointers, verified roots, both edge tables and the "
     "returned paths literally)."
@@ -56,7 +64,9 @@ LEVEL_TEXT = (
 LEVEL_NOTE = (
     "Trusted: Coq kernel, ExtrOcamlBasic extraction + OCaml driver, the correspondence harness. Modelled not "
     "verified: equiv_db.py itself. Theorems assume the model's explicit loop fuel is not exhausted (never observed). "
-    "Completeness of connect_cycles is correspondence/oracle-checked only, not a theorem."
+    "Completeness of connect_cycles is a theorem about the state right after connect_cycles (and after queries "
+    "that follow it); after further add_one_way_edge / add_two_way_edge calls and before the next connect_cycles "
+    "the classes may be finer than the SCCs (that is the documented behaviour of equiv_db.py: `you should use the connect_cycle method first`)."
 )
 
 SPARSE_POOL = [0, 1, 2, 3, 5, 8, 9, 16, 17, 24, 33, 64, 65, 100, 1000, 10**6, 2**40 + 3, -1, -2, -7]
